@@ -83,6 +83,10 @@ Definition bw_expand (g:tensor A) (ax:axis_arg) (keep:bool) : option (tensor A) 
   | AxTuple l => if keep then Some g else expand_dims g l
   end.
 
+(* the same with the guard of sum / max / min: a 0-d operand (rank n = 0) has no dim to put back *)
+Definition bw_expand0 (n:nat) (g:tensor A) (ax:axis_arg) (keep:bool) : option (tensor A) :=
+  if n =? 0 then Some g else bw_expand g ax keep.
+
 (* ---------------- sum ---------------- *)
 Definition sum_forward (a:tensor A) (ax:axis_arg) (keep:bool) : option (tensor A) :=
   match np_reduce_axes true (rank a) ax with
@@ -91,7 +95,7 @@ Definition sum_forward (a:tensor A) (ax:axis_arg) (keep:bool) : option (tensor A
   | None => None
   end.
 Definition sum_backward (g:tensor A) (sa:shape) (ax:axis_arg) (keep:bool) : option (tensor A) :=
-  g' <- bw_expand g ax keep ;; badd (zeros sa) g'.
+  g' <- bw_expand0 (length sa) g ax keep ;; badd (zeros sa) g'.
 
 (* ---------------- mean ---------------- *)
 Context `{!ScalarDiv A}.
@@ -134,22 +138,36 @@ Definition ext_forward (le:A->A->bool) (a:tensor A) (ax:axis_arg) (keep:bool) : 
   | None => None
   end.
 
-(* the 0/1 mask built with argmax(axis, keepdims=True) + put_along_axis / unravel_index *)
-Definition ext_mask (le:A->A->bool) (a:tensor A) (ax:axis_arg) : option (idx -> bool) :=
-  match ax with
-  | AxTuple _ => None                                   (* np.argmax: 'tuple' object cannot be interpreted as an integer *)
-  | AxNone => if size (tshape a) =? 0 then None
-              else let k := argbest le (to_list a) in Some (fun i => ravel (tshape a) i =? k)
-  | AxInt z => match norm_axis (rank a) z with
-               | Some x => let d := nth x (tshape a) 0 in
-                           if d =? 0 then None
-                           else Some (fun i => nth x i 0 =? argbest le (map (fun k => tat a (set_at x k i)) (seq 0 d)))
-               | None => None
-               end
+(* first_extremum_mask (cpu_ops.py): its own axis handling (None -> all, int -> [a], negative + ndim, nothing for a
+   0-d array; no validation, the forward did it), the reduced axes moved last in ascending order and flattened,
+   arg{max,min} along that axis (first occurrence), one-hot mask reshaped / transposed back.
+   In index terms: position i is selected iff its rank among the positions that share its kept coordinates, in
+   row-major order of the reduced coordinates, is the arg-best of that group. *)
+Definition ext_code_mask (n:nat) (ax:axis_arg) : list bool :=
+  let l := match ax with AxNone => map Z.of_nat (seq 0 n) | AxInt a => [a] | AxTuple l => l end in
+  let axs := if n =? 0 then [] else map (fun a => if (a <? 0)%Z then (Z.of_nat n + a)%Z else a) l in
+  map (fun i => existsb (Z.eqb (Z.of_nat i)) axs) (seq 0 n).
+(* the positions sharing the kept coordinates of i, row-major over the reduced coordinates *)
+Fixpoint colof (m:list bool) (sh:shape) (i:idx) : list idx :=
+  match m, sh, i with
+  | true :: m', d :: r, _ :: t => flat_map (fun k => map (cons k) (colof m' r t)) (seq 0 d)
+  | false :: m', _ :: r, k :: t => map (cons k) (colof m' r t)
+  | _, _, _ => [[]]
   end.
+(* the rank of i in that list *)
+Fixpoint fpos (m:list bool) (sh:shape) (i:idx) : nat :=
+  match m, sh, i with
+  | true :: m', _ :: r, k :: t => k * fibre_size m' r + fpos m' r t
+  | false :: m', _ :: r, _ :: t => fpos m' r t
+  | _, _, _ => 0
+  end.
+Definition ext_mask (le:A->A->bool) (a:tensor A) (ax:axis_arg) : option (idx -> bool) :=
+  let m := ext_code_mask (rank a) ax in
+  if fibre_size m (tshape a) =? 0 then None       (* arg{max,min} of an empty sequence *)
+  else Some (fun i => fpos m (tshape a) i =? argbest le (map (tat a) (colof m (tshape a) i))).
 (* grad * mask with broadcasting; multiplication by a 0/1 mask is a selection *)
 Definition ext_backward (le:A->A->bool) (g a:tensor A) (ax:axis_arg) (keep:bool) : option (tensor A) :=
-  mk <- ext_mask le a ax ;; g' <- bw_expand g ax keep ;;
+  mk <- ext_mask le a ax ;; g' <- bw_expand0 (rank a) g ax keep ;;
   so <- broadcast_shapes (tshape g') (tshape a) ;;
   Some (mkT so (fun j => if mk (bcast_idx (tshape a) so j) then tat g' (bcast_idx (tshape g') so j) else s0)).
 
